@@ -736,4 +736,250 @@ theorem nbStep_waitRx {σ} (g : Rng σ) (cfg : NbCfg) (pre : MacState × σ) (gh
             rw [e2]
             exact ⟨rfl, rfl⟩
 
+/-- **one event of the non-blocking state machine, against the history**: either the exchange goes on
+(invariant kept, nothing delivered), or it completes here and its whole MAC-level effect — state,
+generator state, response, delivered downlink — is `History.step` on ONE event -/
+theorem nbStep_inv {σ} (g : Rng σ) (cfg : NbCfg) (pre : MacState × σ) (gh : Option NbGhost) (r : NbRun) (rs : σ)
+    (ev : NbEvent) (items : List NbItem) (resp : NbResp) (r' : NbRun) (rs' : σ)
+    (hinv : NbInv g pre gh r rs) (h : nbEvent g cfg r rs ev items = .ok (resp, r', rs')) :
+    NbStepPost g pre r r' rs' resp (nbAbs gh r.st ev (headItem items) r'.st) := by
+  cases hst : r.st with
+  | idle => rw [← hst]; exact nbStep_idle g cfg pre gh r rs ev items resp r' rs' hst hinv h
+  | sendingData join tx => rw [← hst]; exact nbStep_sending g cfg pre gh r rs ev items resp r' rs' join tx hst hinv h
+  | waitingForRxWindow join tx second t =>
+    rw [← hst]; exact nbStep_waitWindow g cfg pre gh r rs ev items resp r' rs' join tx second t hst hinv h
+  | waitingForRx join tx second t =>
+    rw [← hst]; exact nbStep_waitRx g cfg pre gh r rs ev items resp r' rs' join tx second t hst hinv h
+
+/-- **an event answered with a state error changes nothing** (MAC state, machine state, generator
+state, downlink queue) — except `UnexpectedRadioResponse`, which is the radio refusing a transmission
+and is a completed exchange (`nbStep_inv`) -/
+theorem idleTx_errState {cfg : NbCfg} {r r1 : NbRun} {join : Bool} {tx : TxOut} {len n : Nat} {msg : String}
+    (h : idleTx cfg r join tx len n = .ok (.errState msg, r1)) : msg = "UnexpectedRadioResponse" := by
+  unfold idleTx at h
+  simp only [next_eq] at h
+  cases hit : headItem r.script with
+  | dflt => simp [hit, pure, Except.pure] at h
+  | txDoneNow ts =>
+    simp only [hit, afterTxDone] at h
+    obtain ⟨t1, _, h⟩ := Except.bind_eq_ok h
+    simp [pure, Except.pure] at h
+  | err =>
+    simp only [hit, pure, Except.pure, Except.ok.injEq, Prod.mk.injEq] at h
+    obtain ⟨hx, _⟩ := h
+    split at hx <;> cases hx
+  | idle =>
+    simp only [hit, pure, Except.pure, Except.ok.injEq, Prod.mk.injEq] at h
+    obtain ⟨hx, _⟩ := h
+    split at hx
+    · cases hx
+    · simp only [NbResp.errState.injEq] at hx
+      exact hx.symm
+
+/-- **an event answered with a state error changes nothing** (MAC state, machine state, generator
+state, downlink queue) — except `UnexpectedRadioResponse`, which is the radio refusing a transmission
+and is a completed exchange (`nbStep_inv`) -/
+theorem nbStep_state_error {σ} (g : Rng σ) (cfg : NbCfg) (r : NbRun) (rs : σ) (ev : NbEvent) (items : List NbItem)
+    (msg : String) (r' : NbRun) (rs' : σ) (hmsg : msg ≠ "UnexpectedRadioResponse")
+    (h : nbEvent g cfg r rs ev items = .ok (.errState msg, r', rs')) :
+    r'.m = r.m ∧ r'.st = r.st ∧ rs' = rs ∧ r'.downlinks = r.downlinks := by
+  unfold nbEvent nbStep at h
+  cases hst : r.st with
+  | idle =>
+    simp only [hst] at h
+    cases ev with
+    | timeout => simp [pure, Except.pure] at h
+    | radio e =>
+      simp only [pure, Except.pure, Except.ok.injEq, Prod.mk.injEq] at h
+      obtain ⟨_, rfl, rfl⟩ := h
+      exact ⟨rfl, rfl, rfl, rfl⟩
+    | join =>
+      exfalso
+      obtain ⟨⟨out, m1, rs1⟩, _, hk⟩ := Except.bind_eq_ok h
+      obtain ⟨⟨resp1, r1⟩, hidle, hk2⟩ := Except.bind_eq_ok hk
+      simp only [pure, Except.pure, Except.ok.injEq, Prod.mk.injEq] at hk2
+      obtain ⟨rfl, _, _⟩ := hk2
+      exact hmsg (idleTx_errState hidle)
+    | send d p c =>
+      exfalso
+      obtain ⟨⟨o, m1, rs1⟩, _, hk⟩ := Except.bind_eq_ok h
+      cases o with
+      | none => simp [pure, Except.pure] at hk
+      | some out =>
+        simp only at hk
+        obtain ⟨⟨resp1, r1⟩, hidle, hk2⟩ := Except.bind_eq_ok hk
+        simp only [pure, Except.pure, Except.ok.injEq, Prod.mk.injEq] at hk2
+        obtain ⟨rfl, _, _⟩ := hk2
+        exact hmsg (idleTx_errState hidle)
+  | sendingData join tx =>
+    simp only [hst] at h
+    cases ev with
+    | timeout => simp [pure, Except.pure] at h
+    | join =>
+      simp only [pure, Except.pure, Except.ok.injEq, Prod.mk.injEq] at h
+      obtain ⟨_, rfl, rfl⟩ := h
+      exact ⟨rfl, rfl, rfl, rfl⟩
+    | send d p c =>
+      simp only [pure, Except.pure, Except.ok.injEq, Prod.mk.injEq] at h
+      obtain ⟨_, rfl, rfl⟩ := h
+      exact ⟨rfl, rfl, rfl, rfl⟩
+    | radio e =>
+      exfalso
+      simp only [next_eq] at h
+      cases hit : headItem items <;> simp only [hit] at h
+      · cases e with
+        | rx snr v => cases h
+        | txDone ts =>
+          simp only [afterTxDone] at h
+          obtain ⟨⟨resp1, r1⟩, h1, hk⟩ := Except.bind_eq_ok h
+          obtain ⟨t1, _, h1⟩ := Except.bind_eq_ok h1
+          simp only [pure, Except.pure, Except.ok.injEq, Prod.mk.injEq] at h1 hk
+          obtain ⟨rfl, _⟩ := h1
+          obtain ⟨hx, _⟩ := hk
+          cases hx
+      · simp [pure, Except.pure] at h
+      · cases e with
+        | rx snr v => cases h
+        | txDone ts =>
+          simp only [afterTxDone] at h
+          obtain ⟨⟨resp1, r1⟩, h1, hk⟩ := Except.bind_eq_ok h
+          obtain ⟨t1, _, h1⟩ := Except.bind_eq_ok h1
+          simp only [pure, Except.pure, Except.ok.injEq, Prod.mk.injEq] at h1 hk
+          obtain ⟨rfl, _⟩ := h1
+          obtain ⟨hx, _⟩ := hk
+          cases hx
+      · cases h
+  | waitingForRxWindow join tx second t =>
+    simp only [hst] at h
+    cases ev with
+    | radio e =>
+      simp only [pure, Except.pure, Except.ok.injEq, Prod.mk.injEq] at h
+      obtain ⟨_, rfl, rfl⟩ := h
+      exact ⟨rfl, rfl, rfl, rfl⟩
+    | join =>
+      simp only [pure, Except.pure, Except.ok.injEq, Prod.mk.injEq] at h
+      obtain ⟨_, rfl, rfl⟩ := h
+      exact ⟨rfl, rfl, rfl, rfl⟩
+    | send d p c =>
+      simp only [pure, Except.pure, Except.ok.injEq, Prod.mk.injEq] at h
+      obtain ⟨_, rfl, rfl⟩ := h
+      exact ⟨rfl, rfl, rfl, rfl⟩
+    | timeout =>
+      exfalso
+      simp only [next_eq] at h
+      cases hit : headItem items <;> simp only [hit] at h
+      · obtain ⟨close, _, h⟩ := Except.bind_eq_ok h
+        simp [pure, Except.pure] at h
+      · simp [pure, Except.pure] at h
+      · obtain ⟨close, _, h⟩ := Except.bind_eq_ok h
+        simp [pure, Except.pure] at h
+      · obtain ⟨close, _, h⟩ := Except.bind_eq_ok h
+        simp [pure, Except.pure] at h
+  | waitingForRx join tx second t =>
+    simp only [hst] at h
+    cases ev with
+    | join =>
+      simp only [pure, Except.pure, Except.ok.injEq, Prod.mk.injEq] at h
+      obtain ⟨_, rfl, rfl⟩ := h
+      exact ⟨rfl, rfl, rfl, rfl⟩
+    | send d p c =>
+      simp only [pure, Except.pure, Except.ok.injEq, Prod.mk.injEq] at h
+      obtain ⟨_, rfl, rfl⟩ := h
+      exact ⟨rfl, rfl, rfl, rfl⟩
+    | timeout =>
+      exfalso
+      simp only [next_eq] at h
+      cases hit : headItem items <;> simp only [hit] at h
+      all_goals first
+        | (simp [pure, Except.pure] at h; done)
+        | (cases second
+           · simp only [Bool.false_eq_true, if_false] at h
+             obtain ⟨between, _, h⟩ := Except.bind_eq_ok h
+             obtain ⟨t2, _, h⟩ := Except.bind_eq_ok h
+             simp [pure, Except.pure] at h
+           · simp [pure, Except.pure] at h)
+    | radio e =>
+      exfalso
+      simp only [next_eq] at h
+      cases hit : headItem items <;> simp only [hit] at h
+      all_goals first
+        | (simp [pure, Except.pure] at h; done)
+        | (cases e with
+           | txDone ts => simp [pure, Except.pure] at h
+           | rx snr v =>
+             obtain ⟨⟨o, m2⟩, _, hk⟩ := Except.bind_eq_ok h
+             cases o with
+             | none => simp [pure, Except.pure] at hk
+             | some o =>
+               simp only at hk
+               by_cases hn : (o.resp == Response.noUpdate) = true
+               · simp only [hn, if_true, pure, Except.pure, Except.ok.injEq, Prod.mk.injEq] at hk
+                 obtain ⟨hx, _⟩ := hk
+                 cases hx
+               · simp only [hn, Bool.false_eq_true, if_false, pure, Except.pure, Except.ok.injEq, Prod.mk.injEq] at hk
+                 obtain ⟨hx, _⟩ := hk
+                 cases hx)
+
+/-! ## sessions -/
+
+/-- a session of the non-blocking device: events in order, each with the radio's answers -/
+def nbRun {σ} (g : Rng σ) (cfg : NbCfg) : NbRun → σ → List (NbEvent × List NbItem) → M (List NbResp × NbRun × σ)
+  | r, rs, [] => pure ([], r, rs)
+  | r, rs, (ev, items) :: rest => do
+    let (resp, r, rs) ← nbEvent g cfg r rs ev items
+    let (resps, r, rs) ← nbRun g cfg r rs rest
+    pure (resp :: resps, r, rs)
+
+/-- **the history of a session**: the events of the exchanges it completes, in order (`nbAbs` along
+the states the machine goes through) -/
+def nbAbstract {σ} (g : Rng σ) (cfg : NbCfg) : Option NbGhost → NbRun → σ → List (NbEvent × List NbItem) → List Ev
+  | _, _, _, [] => []
+  | gh, r, rs, (ev, items) :: rest =>
+    match nbEvent g cfg r rs ev items with
+    | .ok (_, r', rs') =>
+      (nbAbs gh r.st ev (headItem items) r'.st).1.toList ++
+        nbAbstract g cfg (nbAbs gh r.st ev (headItem items) r'.st).2 r' rs' rest
+    | .error _ => []
+
+theorem run_cons_ok {σ} (g : Rng σ) (ms ms1 ms2 : MacState × σ) (e : Ev) (o : Out) (rest : List Ev) (os : List Out)
+    (h1 : step g ms e = .ok (ms1, o)) (h2 : run g ms1 rest = .ok (ms2, os)) : run g ms (e :: rest) = .ok (ms2, o :: os) := by
+  simp only [run, h1, h2, bind, Except.bind, pure, Except.pure]
+
+theorem nbInv_idle {σ} (g : Rng σ) (r : NbRun) (rs : σ) (h : r.st = .idle) : NbInv g (r.m, rs) none r rs := by
+  unfold NbInv; rw [h]; exact ⟨rfl, rfl⟩
+
+/-- **every event sequence of the non-blocking front-end refines `History.run`**: from any state
+satisfying the invariant (in particular from `Idle`), if the session returns, the history of its
+completed exchanges returns, and the invariant relates the final states — in `Idle` the MAC state
+and the generator state ARE the history's -/
+theorem nbRun_refines {σ} (g : Rng σ) (cfg : NbCfg) (pre : MacState × σ) (gh : Option NbGhost) (r : NbRun) (rs : σ)
+    (evs : List (NbEvent × List NbItem)) (resps : List NbResp) (r' : NbRun) (rs' : σ)
+    (hinv : NbInv g pre gh r rs) (h : nbRun g cfg r rs evs = .ok (resps, r', rs')) :
+    ∃ pre' gh' outs, run g pre (nbAbstract g cfg gh r rs evs) = .ok (pre', outs) ∧ NbInv g pre' gh' r' rs' := by
+  induction evs generalizing pre gh r rs resps with
+  | nil =>
+    simp only [nbRun, pure, Except.pure, Except.ok.injEq, Prod.mk.injEq] at h
+    obtain ⟨_, rfl, rfl⟩ := h
+    exact ⟨pre, gh, [], rfl, hinv⟩
+  | cons x rest ih =>
+    obtain ⟨ev, items⟩ := x
+    unfold nbRun at h
+    obtain ⟨⟨resp, r1, rs1⟩, hev, hk⟩ := Except.bind_eq_ok h
+    obtain ⟨⟨resps1, r2, rs2⟩, hrun, hk2⟩ := Except.bind_eq_ok hk
+    simp only [pure, Except.pure, Except.ok.injEq, Prod.mk.injEq] at hk2
+    obtain ⟨_, rfl, rfl⟩ := hk2
+    have hpost := nbStep_inv g cfg pre gh r rs ev items resp r1 rs1 hinv hev
+    simp only [nbAbstract, hev]
+    cases hab : nbAbs gh r.st ev (headItem items) r1.st with
+    | mk e gh1 =>
+      rw [hab] at hpost
+      cases e with
+      | none =>
+        obtain ⟨pre', gh', outs, hr, hi⟩ := ih pre gh1 r1 rs1 resps1 hpost.1 hrun
+        exact ⟨pre', gh', outs, by simpa using hr, hi⟩
+      | some e =>
+        obtain ⟨out, hstep, hinv1, _, _⟩ := hpost
+        obtain ⟨pre', gh', outs, hr, hi⟩ := ih (r1.m, rs1) gh1 r1 rs1 resps1 hinv1 hrun
+        exact ⟨pre', gh', out :: outs, by simpa using run_cons_ok g pre _ pre' e out _ outs hstep hr, hi⟩
+
 end Model
